@@ -274,11 +274,23 @@ def gen_attr(r):
             if part:
                 lines += '#[scale_info(' + ', '.join(ra(a) for a in part) + ')]\n'
     # inline bounds keep the item itself valid whatever the attributes do, so only the derive can reject it
-    gens = '<' + ', '.join(f"{p}: ::scale_info::TypeInfo + 'static + TrA" for p in params) + '>' if params else ''
+    # a const parameter (and a lifetime) in the generics list, the const before, between or after the type parameters
+    tps = [f"{p}: ::scale_info::TypeInfo + 'static + TrA" for p in params]
+    const_at = r.choice([None, None, 0, len(tps), len(tps) // 2]) if not union else None
+    with_lt = (not union) and r.random() < 0.25
+    if const_at is not None:
+        tps.insert(const_at, 'const N: usize')
+    if with_lt:
+        tps.insert(0, "'a")
+    gens = '<' + ', '.join(tps) + '>' if tps else ''
     if union:
         body = 'pub union S { a: u8, b: u16 }'
     else:
         fields = ''.join(f'    pub f{i}: ' + (f'core::marker::PhantomData<{p}>' if p in skipped else p) + ',\n' for i, p in enumerate(params))
+        if const_at is not None:
+            fields += '    pub arr: [u8; N],\n'
+        if with_lt:
+            fields += "    pub lt: &'a str,\n"
         body = f'pub struct S{gens} {{\n{fields}    pub z: u8,\n}}'
     src = '#![allow(unused)]\nuse scale_info::TypeInfo;\npub trait TrA { type A; }\n#[derive(TypeInfo)]\n' + lines + body + '\nfn main() {}\n'
 
@@ -514,7 +526,9 @@ def gen_gen(r, force=None):
     where = (' where ' + ', '.join(preds)) if preds else ''
 
     def fline(i, f, pub):
-        a = ('#[codec(skip)] ' if f[1] else '') + ('#[codec(compact)] ' if f[2] else '')
+        # a skipped member sometimes carries a second, separate #[codec(..)] attribute written first
+        two = f[1] and ATTR_R.random() < 0.35
+        a = ('#[codec(index = 3)] ' if two else '') + ('#[codec(skip)] ' if f[1] else '') + ('#[codec(compact)] ' if f[2] else '')
         return f'    {a}{pub}f{i}: {f[0].rust()},\n'
     extra = []
     if lifetime:
@@ -529,7 +543,14 @@ def gen_gen(r, force=None):
         v1 = ''.join(fline(i, f, '') for i, f in enumerate(fields[:half]))
         v2 = ''.join(fline(i + half, f, '') for i, f in enumerate(fields[half:]))
         ex = ''.join(e.format(pub='') for e in extra)
-        src += f'pub enum S<{", ".join(gens)}>{where} {{\n  A {{\n{v1}{ex}  }},\n  B {{\n{v2}  }},\n  C,\n}}\n'
+        # a skipped variant whose payload has no type info, its two helper attributes in either order
+        dv = ''
+        if ATTR_R.random() < 0.4 or force is not None:
+            at = ['#[codec(index = 9)]', '#[codec(skip)]']
+            if ATTR_R.random() < 0.5:
+                at.reverse()
+            dv = f'  {at[0]}\n  {at[1]}\n  D(NoInfo),\n'
+        src += f'pub enum S<{", ".join(gens)}>{where} {{\n  A {{\n{v1}{ex}  }},\n  B {{\n{v2}  }},\n  C,\n{dv}}}\n'
     else:
         body = ''.join(fline(i, f, 'pub ') for i, f in enumerate(fields)) + ''.join(e.format(pub='pub ') for e in extra)
         src += f'pub struct S<{", ".join(gens)}>{where} {{\n{body}}}\n'
